@@ -1,0 +1,58 @@
+//go:build verif
+
+// Contracts for the deductive verifier under /verif (comment-only file: it
+// adds no code; compiled only with -tags verif).
+package egress
+
+// ---- C18: the dial-time IP classifier ------------------------------------------
+
+//verif:func mustCIDR(s) (n)
+//verif:requires is_valid_cidr(s)
+//verif:ensures n != nil && cidr_of(n) == s
+//verif:modifies nothing
+
+// The package initialiser builds the fixed refused-range tables.
+//verif:def tablesInv() = len(refusedV4) == 7 && cidr_of(refusedV4[0].net) == "127.0.0.0/8" && cidr_of(refusedV4[1].net) == "0.0.0.0/8" && cidr_of(refusedV4[2].net) == "10.0.0.0/8" && cidr_of(refusedV4[3].net) == "172.16.0.0/12" && cidr_of(refusedV4[4].net) == "192.168.0.0/16" && cidr_of(refusedV4[5].net) == "169.254.0.0/16" && cidr_of(refusedV4[6].net) == "100.64.0.0/10" && len(refusedV6) == 5 && cidr_of(refusedV6[0].net) == "::1/128" && cidr_of(refusedV6[1].net) == "::/128" && cidr_of(refusedV6[2].net) == "fe80::/10" && cidr_of(refusedV6[3].net) == "fec0::/10" && cidr_of(refusedV6[4].net) == "fc00::/7" && cidr_of(nat64Net) == "64:ff9b::/96" && cidr_of(v4TranslatedNet) == "::ffff:0:0:0/96" && (forall k in [0, 7): refusedV4[k].reason != "") && (forall k in [0, 5): refusedV6[k].reason != "")
+
+//verif:func init()
+//verif:requires !init$guard
+//verif:ensures[tables] tablesInv()
+
+//verif:func classifyV4(ip) (reason)
+//verif:assume tablesInv() because "established by the package initialiser (proved: egress.init#post:tables); no other function stores to these package variables (ownership scan in spec/C18 check)"
+//verif:ensures[floor] len(ip) == 4 && v4_bad(ip[0], ip[1], ip[2], ip[3]) ==> reason != ""
+//verif:ensures[floor-mapped] v4mapped(ip) && v4_bad(ip[12], ip[13], ip[14], ip[15]) ==> reason != ""
+//verif:ensures[not-v4] len(ip) != 4 && !v4mapped(ip) ==> reason != ""
+//verif:modifies nothing
+//verif:loop 0 vars j
+//verif:loop 0 invariant j < 7
+//verif:loop 0 invariant forall k in [0, j + 1): !cidr_contains(cidr_of(refusedV4[k].net), arr(v4), off(v4), len(v4))
+
+//verif:func Refuse(ip) (refused, reason)
+//verif:assume forall k in [0, len(ip)): 0 <= ip[k] && ip[k] <= 255 because "type invariant of []byte: every element is a byte"
+//verif:assume tablesInv() because "established by the package initialiser (proved: egress.init#post:tables); no other function stores to these package variables (ownership scan in spec/C18 check)"
+//verif:ensures[floor-v4] floor_v4(arr(ip), off(ip), len(ip)) ==> refused
+//verif:ensures[floor-mapped] floor_mapped(arr(ip), off(ip), len(ip)) ==> refused
+//verif:ensures[floor-compat] floor_compat(arr(ip), off(ip), len(ip)) ==> refused
+//verif:ensures[floor-translated] floor_translated(arr(ip), off(ip), len(ip)) ==> refused
+//verif:ensures[floor-nat64] floor_nat64(arr(ip), off(ip), len(ip)) ==> refused
+//verif:ensures[floor-6to4] floor_6to4(arr(ip), off(ip), len(ip)) ==> refused
+//verif:ensures[floor-teredo] floor_teredo(arr(ip), off(ip), len(ip)) ==> refused
+//verif:ensures[floor-v6] floor_v6(arr(ip), off(ip), len(ip)) ==> refused
+//verif:ensures[reason-iff-refused] refused == (reason != "")
+//verif:ensures[not-an-ip-refused] len(ip) != 4 && len(ip) != 16 ==> refused
+//verif:modifies nothing
+//verif:loop 0 vars j
+//verif:loop 0 invariant j < 5 && forall k in [0, j + 1): !cidr_contains(cidr_of(refusedV6[k].net), arr(ip16), off(ip16), len(ip16))
+
+//verif:func isRawV4(ip) (r)
+//verif:ensures r == (len(ip) == 4)
+//verif:pure
+
+//verif:func isV4Compatible(ip16) (r)
+//verif:requires len(ip16) == 16
+//verif:ensures[prefix] r ==> forall k in [0, 12): ip16[k] == 0
+//verif:ensures[exact] (forall k in [0, 12): ip16[k] == 0) ==> r == (ip16[12] != 0 || ip16[13] != 0 || ip16[14] != 0 || ip16[15] != 0 && ip16[15] != 1)
+//verif:modifies nothing
+//verif:loop 0 vars i
+//verif:loop 0 invariant 0 <= i && i <= 12 && forall k in [0, i): ip16[k] == 0
